@@ -181,7 +181,19 @@ def D7():
     return any(c for _, c in out), 'columns of the slices table that differ from the canonical run: %r' % (out,)
 
 
-ALL = {'D1': D1, 'D2': D2, 'D3': D3, 'D4': D4, 'D5': D5, 'D6': D6, 'D7': D7}
+def D9():
+    """C08: every hit cropped above MSA+buffer (only second-or-higher hits) -> ValueError out of run()."""
+    df = mk([('a', -10., 9000., 2)])
+    try:
+        ch = ampycloud.run(df, prms={'MSA': 1000, 'MSA_HIT_BUFFER': 0})
+        return False, 'ok ' + ch.metar_msg()
+    except AmpycloudError as e:
+        return False, 'AmpycloudError ' + str(e)[:80]
+    except Exception as e:
+        return True, '%s: %s' % (type(e).__name__, str(e)[:100])
+
+
+ALL = {'D9': D9, 'D1': D1, 'D2': D2, 'D3': D3, 'D4': D4, 'D5': D5, 'D6': D6, 'D7': D7}
 if __name__ == '__main__':
     want = [a for a in sys.argv[1:] if a in ALL] or list(ALL)
     for k in want:
